@@ -29,7 +29,7 @@ Definition load_obj (O : oracles) (inp : pystr + json) : res (list (pystr * json
             | inl s => match o_json_loads O true s with
                        | JOk j => Ok j
                        | JDecodeError => Err (Lib InvalidJSONStructure)
-                       | JUnicodeError => Err (Py ValueError)
+                       | JUnicodeError => Err (Lib InvalidJSONStructure)     (* `except ValueError` since the F10 fix *)
                        | JOtherError => Err Unmodelled
                        end
             | inr j => Ok j
